@@ -158,11 +158,15 @@ class CallMixin:
         for kind, fn in con.raises.items():
             cond = fn(pre)
             if cond is not None:
-                self.hazard(kind, z3.Not(cond["when"]), node, "%s raises %s" % (con.qualname, kind))
+                self.hazard(kind, z3.Not(cond["when"]), node, "%s raises %s" % (con.qualname, kind), may=not cond.get("exact", True))
         res = self.fresh_result(con)
         for f in wf(res):
             self.fact(st, f)
         post = S.Ctx(bound, old=pre, result=res, extra={"wit": self.fresh_witnesses(con)})
+        if getattr(con, "witness_sig", None):
+            # kept per path (the executor-wide `last_call_witnesses` is overwritten by calls on other paths)
+            st.ghost = dict(st.ghost)
+            st.ghost["wit:" + con.qualname] = post.wit
         for label, f in con.ensures(post):
             self.fact(st, f)
         return res
@@ -196,8 +200,8 @@ class CallMixin:
         self.effect_pre_state = st.fork()
         for kind, fn in con.raises.items():
             spec = fn(pre)
-            if spec is not None:
-                self.fact(st, z3.Not(spec["when"]))  # normal return excludes the raising condition
+            if spec is not None and spec.get("exact", True):
+                self.fact(st, z3.Not(spec["when"]))  # normal return excludes the raising condition (only for `raises exactly when`)
         # havoc what the callee may modify
         post_env = dict(bound)
         recv_name = next(iter(con.params))
@@ -261,7 +265,7 @@ class CallMixin:
         for kind, fn in con.raises.items():
             cond = fn(pre)
             if cond is not None:
-                self.hazard(kind, z3.Not(cond["when"]), node, "%s raises %s" % (con.qualname, kind))
+                self.hazard(kind, z3.Not(cond["when"]), node, "%s raises %s" % (con.qualname, kind), may=not cond.get("exact", True))
         post = S.Ctx(bound, old=pre, result=NONE)
         for label, f in con.ensures(post):
             self.fact(st, f)
@@ -370,6 +374,17 @@ class CallMixin:
         v = self.eval(a, st)
         if isinstance(v.ty, TList):
             return v
+        if isinstance(v.ty, TSet):
+            # list(a_set): some duplicate-free enumeration of the set
+            lty = TList(v.ty.elem)
+            R = z3.Const(fresh_name("setlist"), sort_of(lty))
+            pos = z3.Function(fresh_name("lpos"), sort_of(v.ty.elem), z3.IntSort())
+            x = z3.Const(fresh_name("x"), sort_of(v.ty.elem))
+            j = z3.Int(fresh_name("j"))
+            self.fact(st, l_len(R) >= 0)
+            self.fact(st, forall([x], z3.Select(v.t, x) == z3.And(0 <= pos(x), pos(x) < l_len(R), l_at(R, pos(x)) == x), patterns=[z3.Select(v.t, x)]))
+            self.fact(st, forall([j], z3.Implies(z3.And(0 <= j, j < l_len(R)), z3.And(z3.Select(v.t, l_at(R, j)), pos(l_at(R, j)) == j)), patterns=[l_at(R, j)]))
+            return Val(lty, R)
         h = self.listof_handlers.get(v.ty.key)
         if h:
             return h(self, v, node, st)
@@ -438,7 +453,24 @@ class CallMixin:
         return self.sorted_perm(v, self._keyfn(node, st), st, node)
 
     def sorted_of_set(self, v, node, st):
-        raise Unsupported("sorted() of a set", node)
+        """sorted(set): a duplicate-free list holding exactly the set's elements, ascending (strings: in the uninterpreted order str_lt)"""
+        ety = v.ty.elem
+        if ety not in (TInt, TStr):
+            raise Unsupported("sorted() of a set of %s" % ety, node)
+        lty = TList(ety)
+        R = z3.Const(fresh_name("sortedset"), sort_of(lty))
+        pos = z3.Function(fresh_name("spos"), sort_of(ety), z3.IntSort())
+        x = z3.Const(fresh_name("x"), sort_of(ety))
+        a, b = z3.Int(fresh_name("a")), z3.Int(fresh_name("b"))
+        n = l_len(R)
+        lt = (lambda p, q: p < q) if ety == TInt else S.str_lt
+        self.fact(st, n >= 0)
+        self.fact(st, forall([x], z3.Select(v.t, x) == z3.And(0 <= pos(x), pos(x) < n, l_at(R, pos(x)) == x), patterns=[z3.Select(v.t, x)]))
+        self.fact(st, forall([a], z3.Implies(z3.And(0 <= a, a < n), z3.And(z3.Select(v.t, l_at(R, a)), pos(l_at(R, a)) == a)), patterns=[l_at(R, a)]))
+        self.fact(st, forall([a, b], z3.Implies(z3.And(0 <= a, a < b, b < n), lt(l_at(R, a), l_at(R, b))), patterns=[z3.MultiPattern(l_at(R, a), l_at(R, b))]))
+        st.ghost = dict(st.ghost)
+        st.ghost["last_sorted_set"] = dict(R=R, pos=pos, set=v)
+        return Val(lty, R)
 
     # ------------------------------------------------------ container methods
     def _mutate(self, recv_node, newval, st, node):
@@ -710,6 +742,16 @@ class CallMixin:
         for c in range(m):
             self.fact(st, forall([a], z3.Implies(z3.And(0 <= a, a < n), l_at(R, m * a + c) == t_get(l_at(src.t, a), c)), patterns=[l_at(src.t, a)]))
         return Val(ty, R)
+
+    def b___choose__(self, node, st):
+        """ghost only: some element of a set (an arbitrary value when the set is empty)"""
+        (v,) = [self.eval(a, st) for a in node.args]
+        if not isinstance(v.ty, TSet):
+            raise Unsupported("__choose__ of %s" % v.ty, node)
+        w = z3.Const(fresh_name("chosen"), sort_of(v.ty.elem))
+        x = z3.Const(fresh_name("x"), sort_of(v.ty.elem))
+        self.fact(st, z3.Implies(z3.Exists([x], z3.Select(v.t, x)), z3.Select(v.t, w)))
+        return Val(v.ty.elem, w)
 
     def b_str(self, node, st):
         (x,) = [self.eval(a, st) for a in node.args]
